@@ -221,7 +221,13 @@ func (p *TxProcessor) checkSignersWeight(sender common.Address, tx *types.Transa
 		signersMap := accSigners.ToSignerMap()
 		// 计算签名者权重总和
 		var totalWeight int64 = 0
+		// a signer's weight counts once, however many signatures of that signer the transaction carries
+		counted := make(map[common.Address]struct{}, len(signers))
 		for _, addr := range signers {
+			if _, isCounted := counted[addr]; isCounted {
+				continue
+			}
+			counted[addr] = struct{}{}
 			if w, ok := signersMap[addr]; ok {
 				totalWeight = totalWeight + int64(w)
 			}
